@@ -53,7 +53,7 @@ Proof.
   intros a1 x y Ha.
   assert (H : forallb (fun a => forallb (fun x => forallb (fun y =>
                  bytes_eqb (bits8 (comb a x y)) (skipn (N.to_nat a) (bits8 x) ++ firstn (N.to_nat a) (bits8 y))) all_bytes) all_bytes) [1;2;3;4;5;6;7]%N = true)
-    by (vm_compute; reflexivity).
+    by (vm_cast_no_check (eq_refl true)).
   rewrite forallb_forall in H. assert (Hin : In a1 [1;2;3;4;5;6;7]%N) by (cbn; lia).
   pose proof (forall_bytes _ (H a1 Hin) x) as Hx. cbv beta in Hx. pose proof (forall_bytes _ Hx y) as Hy. cbv beta in Hy.
   apply beqb_eq in Hy. exact Hy.
